@@ -321,6 +321,14 @@ class C05(PtgCheck):
                                   "4:bc.2.2.1.1:2:d:64:2", "3:hash:1:d:64:2")
                       if not jdfdist.relay_lacks_output(ov, parse_cfg(c)["place"], parse_cfg(c)["np"], parse_cfg(c)["bcast"])]
                 out.append("dist %s | %s" % (" ".join(cf), jdfgen.to_case(ov)))
+        if not quick:
+            # the write-back spellings (corpus/C05/00_writeback_forms.txt is the quick-tier instance) on 1..4 ranks x topologies x short limits
+            for T, K in ((3, 4), (2, 5), (4, 2)):
+                wb = jdfdist.wbforms_program(T, K)
+                for np_ in (1, 2, 3, 4):
+                    cf = ["%d:%s:%d:%s:%d:2" % (np_, r.pick(["cyc", "hash", "bc.%d.1.1.1" % np_]), b, sh, r.pick([64, 640, 2048]))
+                          for b in (0, 1, 2) for sh in ("d", "0")]
+                    out.append("dist %s | %s" % (" ".join(cf), jdfgen.to_case(wb)))
         nprog = 4 if quick else 60
         ts = r.shuffle(list(jdfdist.DIST_TEMPLATES))
         nps = r.shuffle([2, 3, 4, 4, 3, 2])
